@@ -50,6 +50,9 @@ type Result struct {
 	Err    error
 	Panic  interface{}
 	Prompt int
+	// Hung: driver.PProf did not return within the watchdog time (this run, or an earlier one of this process:
+	// a hung run keeps the driver's process-wide locks, so later runs are not attempted)
+	Hung bool
 	// Marks[i] = number of UIOut entries when interactive line i was requested: UIOut[Marks[i]:Marks[i+1]] is what
 	// line i printed through the UI
 	Marks []int
@@ -68,7 +71,11 @@ func (r *Result) UIOf(i int) string {
 var (
 	mu       sync.Mutex // the driver's option store is process-global: one PProf call at a time
 	pristine = map[string]interface{}{}
+	hung     string // set once a run did not come back
 )
+
+// Watchdog is how long one driver.PProf call may take.
+var Watchdog = 300 * time.Second
 
 // flagSet implements plugin.FlagSet over an argument list. The driver registers
 // every option flag with the CURRENT value of the process-global option store as
@@ -299,6 +306,9 @@ func (u *ui) SetAutoComplete(complete func(string) string) {}
 func Run(o Opts) *Result {
 	mu.Lock()
 	defer mu.Unlock()
+	if hung != "" {
+		return &Result{Files: map[string][]byte{}, Hung: true, Err: fmt.Errorf("harness: not run, an earlier driver.PProf call never returned (%s)", hung)}
+	}
 	res := &Result{Files: map[string][]byte{}}
 	fs := &flagSet{args: o.Args, bools: map[string]*bool{}, ints: map[string]*int{}, floats: map[string]*float64{},
 		strs: map[string]*string{}, lists: map[string]*[]*string{}}
@@ -325,7 +335,9 @@ func Run(o Opts) *Result {
 	if o.Transport != nil {
 		po.HTTPTransport = o.Transport
 	}
-	func() {
+	done := make(chan struct{})
+	go func() {
+		defer close(done)
 		defer func() {
 			if r := recover(); r != nil {
 				res.Panic = r
@@ -333,6 +345,12 @@ func Run(o Opts) *Result {
 		}()
 		res.Err = driver.PProf(po)
 	}()
+	select {
+	case <-done:
+	case <-time.After(Watchdog):
+		hung = fmt.Sprintf("args %q lines %q", o.Args, o.Lines)
+		return &Result{Files: map[string][]byte{}, Hung: true, Err: fmt.Errorf("harness: driver.PProf did not return within %v (%s)", Watchdog, hung)}
+	}
 	if len(fs.unknown) > 0 && res.Err == nil {
 		res.Err = fmt.Errorf("harness: unknown flag %v", fs.unknown)
 	}
